@@ -5,7 +5,29 @@ use crate::pipeline::Lang;
 use crate::report::{self, Report, Violation};
 use serde_json::json;
 
-const SRC: &str = "#[typeshare]\npub struct Item { pub user_id: u32, pub when: DateTime, pub items: Option<Vec<u32>>, pub nothing: () }\n\n#[typeshare]\npub struct Wrapper<T> { pub inner: T }\n";
+const SRC: &str = "#[typeshare]\npub struct Item { pub user_id: u32, pub when: DateTime, pub items: Option<Vec<u32>>, pub nothing: () }\n\n#[typeshare]\npub struct Wrapper<T> { pub inner: T }\n\n#[typeshare(swift = \"Equatable\")]\npub struct Decorated { pub a: u32 }\n\n#[typeshare(swiftGenericConstraints = \"T: Equatable\")]\npub struct Pair<T, U> { pub t: T, pub u: U }\n\n#[typeshare(swift = \"Equatable\", swiftGenericConstraints = \"A: Hashable & Comparable\")]\n#[serde(tag = \"type\", content = \"content\")]\npub enum Both<A, B> { One(A), Two(B) }\n";
+
+/// Swift: the conformance list of `decl_name` and the constraint sets of its generic parameters, as sets
+fn swift_decl_sets(text: &str, decl_name: &str) -> Option<(Vec<String>, std::collections::BTreeMap<String, Vec<String>>)> {
+    let line = text.lines().find(|l| (l.contains("struct ") || l.contains("enum ")) && l.split(|c: char| !c.is_alphanumeric() && c != '_').any(|w| w == decl_name) && l.trim_end().ends_with('{'))?;
+    let after = line.split_once(decl_name)?.1;
+    let (generics, rest) = if let Some(r) = after.strip_prefix('<') {
+        let end = r.find('>')?;
+        (&r[..end], &r[end + 1..])
+    } else {
+        ("", after)
+    };
+    let mut params = std::collections::BTreeMap::new();
+    for p in generics.split(',').map(|p| p.trim()).filter(|p| !p.is_empty()) {
+        let (n, cs) = p.split_once(':').unwrap_or((p, ""));
+        params.insert(n.trim().to_string(), cs.split('&').map(|c| c.trim().to_string()).filter(|c| !c.is_empty()).collect());
+    }
+    let conf = rest.trim().trim_start_matches(':').trim_end_matches('{').split(',').map(|c| c.trim().to_string()).filter(|c| !c.is_empty()).collect();
+    Some((conf, params))
+}
+fn has_all(set: &[String], want: &[&str]) -> bool {
+    want.iter().all(|w| set.iter().any(|s| s == w))
+}
 
 /// the five double-homed settings: (cli flag, toml table, toml key, cli value, file value)
 const SETTINGS: [(&str, &str, &str, &str, &str); 5] = [
@@ -199,6 +221,19 @@ pub fn run(args: &[String]) -> i32 {
             ("type_mappings-python", Lang::Python, "[python.type_mappings]\nDateTime = \"datetime\"\n".into(), Box::new(|t: &str| t.contains("datetime"))),
             ("default_decorators", Lang::Swift, "[swift]\ndefault_decorators = [\"Sendable\", \"Hashable\"]\n[swift.type_mappings]\nDateTime = \"Date\"\n".into(), Box::new(|t: &str| t.contains("struct Item: Codable, Sendable, Hashable"))),
             ("default_generic_constraints", Lang::Swift, "[swift]\ndefault_generic_constraints = [\"Sendable\"]\n[swift.type_mappings]\nDateTime = \"Date\"\n".into(), Box::new(|t: &str| t.contains("Wrapper<T: Codable & Sendable>"))),
+            // a file-only default and an item-level annotation of the same kind: both apply (union)
+            ("default_decorators+item-decorator", Lang::Swift, "[swift]\ndefault_decorators = [\"Sendable\", \"Hashable\"]\n[swift.type_mappings]\nDateTime = \"Date\"\n".into(), Box::new(|t: &str| {
+                swift_decl_sets(t, "Decorated").map(|(c, _)| has_all(&c, &["Codable", "Sendable", "Hashable", "Equatable"])).unwrap_or(false)
+                    && swift_decl_sets(t, "Both").map(|(c, _)| has_all(&c, &["Codable", "Sendable", "Hashable", "Equatable"])).unwrap_or(false)
+                    && swift_decl_sets(t, "Pair").map(|(c, _)| has_all(&c, &["Codable", "Sendable", "Hashable"]) && !c.iter().any(|x| x == "Equatable")).unwrap_or(false)
+            })),
+            ("default_generic_constraints+item-constraints", Lang::Swift, "[swift]\ndefault_generic_constraints = [\"Sendable\"]\n[swift.type_mappings]\nDateTime = \"Date\"\n".into(), Box::new(|t: &str| {
+                swift_decl_sets(t, "Pair").map(|(_, p)| has_all(p.get("T").map(|v| v.as_slice()).unwrap_or(&[]), &["Codable", "Equatable", "Sendable"]) && has_all(p.get("U").map(|v| v.as_slice()).unwrap_or(&[]), &["Codable", "Sendable"]) && !p["U"].iter().any(|x| x == "Equatable")).unwrap_or(false)
+                    && swift_decl_sets(t, "Both").map(|(_, p)| has_all(p.get("A").map(|v| v.as_slice()).unwrap_or(&[]), &["Codable", "Hashable", "Comparable", "Sendable"]) && has_all(p.get("B").map(|v| v.as_slice()).unwrap_or(&[]), &["Codable", "Sendable"])).unwrap_or(false)
+            })),
+            ("both-defaults+both-annotations", Lang::Swift, "[swift]\ndefault_decorators = [\"Sendable\"]\ndefault_generic_constraints = [\"Sendable\", \"Identifiable\"]\nprefix = \"Fp\"\n[swift.type_mappings]\nDateTime = \"Date\"\n".into(), Box::new(|t: &str| {
+                swift_decl_sets(t, "FpBoth").map(|(c, p)| has_all(&c, &["Codable", "Sendable", "Equatable"]) && has_all(p.get("A").map(|v| v.as_slice()).unwrap_or(&[]), &["Codable", "Hashable", "Comparable", "Sendable", "Identifiable"]) && has_all(p.get("B").map(|v| v.as_slice()).unwrap_or(&[]), &["Codable", "Sendable", "Identifiable"])).unwrap_or(false)
+            })),
             ("codablevoid_constraints", Lang::Swift, "[swift]\ncodablevoid_constraints = [\"Equatable\"]\n[swift.type_mappings]\nDateTime = \"Date\"\n".into(), Box::new(|t: &str| t.contains("struct CodableVoid: Codable, Equatable"))),
             ("uppercase_acronyms", Lang::Go, "[go]\npackage = \"p\"\nuppercase_acronyms = [\"ID\"]\n[go.type_mappings]\nDateTime = \"string\"\n".into(), Box::new(|t: &str| t.contains("UserID uint32"))),
             ("uppercase_acronyms-absent", Lang::Go, "[go]\npackage = \"p\"\n[go.type_mappings]\nDateTime = \"string\"\n".into(), Box::new(|t: &str| t.contains("UserId uint32"))),
